@@ -12,7 +12,7 @@ import (
 
 // verifScriptRead arms one scripted read of K arbitrary records; afterwards
 // the read blocks until the file is closed (as the poller does).
-func verifScriptRead(K, L int) { verifScriptReadX(K, L, false) }
+func verifScriptRead(K, L int) { verifScriptReadX(K, L, verifParam("SIMPLE") != 0) }
 
 // simple: only ordinary (non-housekeeping) records of listed watches, no cookies
 func verifScriptReadX(K, L int, simple bool) {
@@ -196,8 +196,20 @@ func H_conc_api() {
 	rl := make(chan []string, 1)
 	go func() { ra <- w.Add("/new") }()
 	go func() { verifYield(); rb <- w.Remove("/new") }()
+	rl2 := make(chan int, 1)
 	go func() { verifYield(); rl <- w.WatchList() }()
+	go func() {
+		l2 := w.WatchList()
+		n := 0
+		for _, p := range l2 { // the caller reads the snapshot it was given
+			if p != "" {
+				n++
+			}
+		}
+		rl2 <- n
+	}()
 	ea, eb, l := <-ra, <-rb, <-rl
+	<-rl2
 	verifAssert(ea == nil, "Add of a fresh path succeeds")
 	verifAssert(eb == nil || errors.Is(eb, ErrNonExistentWatch), "Remove either found the path (after Add) or reports ErrNonExistentWatch (before Add)")
 	for i := range l {
@@ -211,8 +223,19 @@ func H_conc_api() {
 		verifAssert(known, "WatchList never shows a path that was never added")
 	}
 	verifQuiesce()
-	listed := verifInList(w.WatchList(), "/new")
+	snap := w.WatchList()
+	listed := verifInList(snap, "/new")
 	verifAssert(listed == (eb != nil), "final state agrees with the sequential order the results imply")
+	// a returned list is a snapshot: later calls must not rewrite it
+	var copyOf [8]string
+	copy(copyOf[:], snap)
+	_ = w.Add("/t/ab")
+	_ = w.WatchList()
+	_ = w.Remove("/t/ab")
+	_ = w.WatchList()
+	for i := range snap {
+		verifAssert(snap[i] == copyOf[i], "a list returned by WatchList is rewritten by later calls (it must be a snapshot)")
+	}
 	verifAssert(w.Close() == nil, "Close returns")
 	verifReach("conc-api")
 }
